@@ -341,6 +341,28 @@ func (m *C18) canaries(w *eng.World, when string) {
 				sig = "seller-rate>1"
 			}
 			fail("marketplace.BuyDirect", sig, r)
+			return
+		}
+		// the stated precondition on the max fee is "covers the buyer fee rounded down to whole
+		// units": a max fee of exactly that amount (or none at all when it is zero) must do
+		brr, ok1 := ref.Rate(br)
+		if _, ok2 := ref.Rate(sr); ok1 && ok2 {
+			for _, qty := range []string{"1.5", "0.000001", "7"} {
+				q, _ := ref.ParseRat(qty)
+				fee := ref.Floor(new(big.Rat).Mul(new(big.Rat).Mul(q, big.NewRat(7, 1)), brr))
+				if ref.SigDigits(new(big.Rat).Mul(new(big.Rat).Mul(q, big.NewRat(7, 1)), brr)) > 34 {
+					continue // F6 territory
+				}
+				ord := &markettypes.MsgBuyDirect_Order{SellOrderId: id, Quantity: qty, BidPrice: &ask, DisableAutoRetire: true}
+				if fee.Sign() > 0 {
+					mf := sdk.NewCoin(ad, sdk.NewIntFromBigInt(fee))
+					ord.MaxFeeAmount = &mf
+				}
+				if r = c.Deliver(&markettypes.MsgBuyDirect{Buyer: buyer.String(), Orders: []*markettypes.MsgBuyDirect_Order{ord}}); !r.OK {
+					fail("marketplace.BuyDirect", "max-fee-exactly-floor-of-buyer-fee", r)
+					return
+				}
+			}
 		}
 	})
 }
